@@ -311,7 +311,7 @@ def leapStage (ls : List LeapSecond) (k : Except TzError Unit) : Except TzError 
   | .error e => .error e
   | .ok () => k
 
-theorem checkInputs_eq (z : TimeZone) :
+theorem zoneCheckInputs_eq (z : TimeZone) :
     z.checkInputs =
       if z.localTimeTypes.length = 0 then .error (.timeZone .noLocalTimeType) else
       match checkTransitions z.localTimeTypes.length z.transitions with
@@ -432,7 +432,7 @@ theorem ruleStage_err (z : TimeZone) (e : TzError) (h : ruleStage z = .error e) 
 
 theorem checkInputs_ok_iff (z : TimeZone) (hr : Spec.LeapInRange z.leapSeconds) :
     z.checkInputs = .ok () ↔ Spec.WFZone z := by
-  rw [checkInputs_eq]
+  rw [zoneCheckInputs_eq]
   unfold Spec.WFZone Spec.IndexesOK
   by_cases h0 : z.localTimeTypes.length = 0
   · rw [if_pos h0]
@@ -474,7 +474,7 @@ def Blame (z : TimeZone) : TzError → Prop
 
 theorem checkInputs_error_blames (z : TimeZone) (hr : Spec.LeapInRange z.leapSeconds) (e : TzError)
     (h : z.checkInputs = .error e) : Blame z e := by
-  rw [checkInputs_eq] at h
+  rw [zoneCheckInputs_eq] at h
   by_cases h0 : z.localTimeTypes.length = 0
   · rw [if_pos h0] at h
     cases h
